@@ -13,14 +13,17 @@ UNIVERSE_NOTE = (' || Universes actually run are listed in per_universe with the
                  'reduced universes (quick), all in full (thorough).')
 
 
-def flavours_for(tier, seed, allowed=(0, 1, 2, 3)):
+def flavours_for(tier, seed, allowed=(0, 1, 2, 3), thorough_full=None):
     """list of (flavour, reduced).  quick: flavour 0 and one more selected by VERIF_SEED get the full universes, every
     other allowed flavour a reduced set (U0, U2 depth 1, TWO depth 2, LONG, UC) so that type- and magnitude-dependent
     behaviour is exercised whatever the seed; thorough: everything in full.  The seed never samples inside a space: it
     rotates which complete bounded space is enumerated in full on top of the fixed ones."""
     allowed = list(allowed)
     if tier == 'thorough':
-        return [(f, False) for f in allowed]
+        if thorough_full is None:
+            return [(f, False) for f in allowed]
+        # properties with a large per-state fan-out: only the named flavours get the deep universes
+        return [(f, f not in thorough_full) for f in allowed]
     rest = [f for f in allowed if f != 0]
     full = [0] if 0 in allowed else []
     if rest:
@@ -125,7 +128,7 @@ class StateSpec(engine.Spec):
 
 def run_state_property(prop, level, fn, tier, seed, classes=('DynGraph', 'DynDiGraph'), modes=(True,),
                        which=('U0', 'U1', 'U2', 'TWO', 'U3', 'LONG', 'UC'), flavours=(0, 1, 2, 3, 5, 6), rule='', params=None,
-                       assumptions=(), vacuity=None, sample_fn=None, opfilter=None, reduced=None, acc_reduced=False, pure=False):
+                       assumptions=(), vacuity=None, sample_fn=None, opfilter=None, reduced=None, acc_reduced=False, pure=False, thorough_full=None):
     known = common.load_known()
     rep = common.Report(prop, tier, seed, level)
     p = dict(tier_params(tier))
@@ -134,7 +137,7 @@ def run_state_property(prop, level, fn, tier, seed, classes=('DynGraph', 'DynDiG
     spec = StateSpec(prop, fn, pure)
     sums = {}
     reduced_cfg = reduced
-    for fl, reduced in flavours_for(tier, seed, flavours):
+    for fl, reduced in flavours_for(tier, seed, flavours, thorough_full):
         for cls in classes:
             for removal in modes:
                 conf = U.conf_make(cls, removal, fl, window_for(tier, fl, p['w']))
